@@ -104,7 +104,7 @@ var directedNames = []string{
 	"company-id-control", "return-code", "service-class-control", "service-class-header", "batch-order", "batch-number", "check-digit", "batch-addenda-count",
 	"file-addenda-count", "ctx-addenda-records", "addenda-indicator", "prenote-with-amount", "zero-amount-balanced", "amount-plus-balanced", "special-char",
 	"addenda-sequence", "iat-addenda-records", "block-count-zero", "file-header-field", "batch-header-field",
-	"destination-zero-filled", "origin-zero-filled",
+	"destination-zero-filled", "origin-zero-filled", "unicode-space-edge",
 }
 
 var specials = []string{"\x7f", "\x1f", "€", "→", "日", "ß", " ", "`", "\x00", "Ø", "¡"}
@@ -423,6 +423,32 @@ func directed(r *gen.Rand, ls []string, name string) ([]string, bool) {
 		default:
 			out[i] = put(out[i], 40, "          ") // company identification blank
 		}
+	case "unicode-space-edge":
+		// a Unicode space (no-break space, ideographic space, …) at the edge of a value that two records repeat: the
+		// company identification of a batch header and of its control, written alike in both
+		i, ok := pickIdx(r, recs(out, '5'))
+		if !ok {
+			return nil, false
+		}
+		j := nextRec(out, i, '8')
+		if j < 0 || adv {
+			return nil, false
+		}
+		id := []rune(field(out[i], 40, 50))
+		if string(id) != field(out[j], 44, 54) {
+			return nil, false
+		}
+		sp := gen.Pick(r, []string{"\u00a0", "\u3000", "\u2003", "\u0085", "\u00a0"})
+		n := len([]rune(strings.TrimRight(string(id), " ")))
+		at := n
+		switch {
+		case r.Chance(1, 3):
+			at = 0 // leading
+		case n >= 10:
+			at = 9
+		}
+		out[i] = put(out[i], 40+at, sp)
+		out[j] = put(out[j], 44+at, sp)
 	case "special-char":
 		typ := gen.Pick(r, []byte{'1', '5', '6', '7', '8'})
 		i, ok := pickIdx(r, recs(out, typ))
